@@ -188,6 +188,14 @@ Theorem c11_reject : forall O kt d ps k,
   dict_key_spec kt d /\ dict_key_spec kt (init_data kt d ps) /\ import_spec O kt d (k_native k).
 Proof. exact reject. Qed.
 
+(* full characterisation: a JWK is accepted exactly when the Spec holds, and
+   the key then carries the completed dict *)
+Theorem c11_import_iff : forall O kt d ps k,
+  import_key O kt d ps = Ok k <->
+  dict_key_spec kt d /\ dict_key_spec kt (init_data kt d ps) /\ import_spec O kt d (k_native k) /\
+  k_dict k = init_data kt d ps /\ k_type k = kt.
+Proof. exact import_iff. Qed.
+
 (* the dict-level validation is exactly the Spec *)
 Theorem c11_validate_iff : forall kt d, validate_dict_key kt d = Ok tt <-> dict_key_spec kt d.
 Proof. exact validate_dict_key_spec. Qed.
@@ -259,6 +267,7 @@ Print Assumptions c11_jwk_id.
 Print Assumptions c11_jwk_id_exact.
 Print Assumptions c11_registry_dispatch.
 Print Assumptions c11_reject.
+Print Assumptions c11_import_iff.
 Print Assumptions c11_validate_iff.
 Print Assumptions c11_validator_iff.
 Print Assumptions c11_refused.
